@@ -26,6 +26,12 @@ def eq(a, b): return call('=', a, b)
 def neq(a, b): return call('\\=', a, b)
 def ite(c, t, e): return ['or', ['if', c, t], e]
 
+def top_level_goals(body):
+    n = 1
+    while body[0] == 'and':
+        n += top_level_goals(body[1]); body = body[2]
+    return n
+
 def has_cut(body):
     k = body[0]
     if k == 'cut': return True
